@@ -8,7 +8,7 @@ def judge(c, iv, ia, spec, mv, ma):
         if iv.startswith("ok"):
             return ("err …", "a strict prefix of a valid encoding was accepted")
         return None
-    if c["kind"] == "targeted" and c["what"] in ("len>max", "cnt>max", "len>available", "cnt>available"):
+    if c["kind"] == "targeted" and c["what"] in ("len>max", "cnt>max", "len>available", "cnt>available", "over-max-present"):
         if iv.startswith("ok"):
             return (c["expect"], "a length/count above the declared maximum or the bytes present was accepted")
         if iv != c["expect"]:
@@ -27,6 +27,7 @@ def judge(c, iv, ia, spec, mv, ma):
 
 RULE = ("every strict prefix (byte granularity) of every valid encoding must be rejected; at every bounded declarator position (literal or constant bound, "
         "inline or typedef) the reference marks, the length/count word is set to max+1, 2^16, 2^31-1, 2^31, 2^32-1: InvalidLength demanded; "
+        "values one item over the maximum at one bounded position with all bytes present (reference-generated): InvalidLength demanded; "
         "values with lengths = max are generated with probability 1/8 per position and must be accepted")
 
 
